@@ -1,1 +1,2 @@
+pub mod envelope;
 pub mod ray;
